@@ -51,6 +51,22 @@ def _register_immutable():
 _register_immutable()
 
 
+def node_seq(*layers, k='dk'):
+  """*args is the first parameter."""
+  return vfx.rec('node_seq', locals())
+
+
+class NewInit(vfx.RecObj):
+  """Defines both __new__ (unannotated) and __init__ (annotated with a
+  tag) in one class body."""
+
+  def __new__(cls, x='dx', y='dy'):
+    return super().__new__(cls)
+
+  def __init__(self, x: typing.Annotated[object, TagA] = 'dx', y='dy'):
+    self._record('NewInit', locals())
+
+
 def node_va(a='da', *args):
   """A named parameter below *args."""
   return vfx.rec('node_va', locals())
